@@ -67,6 +67,28 @@ def check_bitmap(ctx, prog, R):
                   "storing an empty head does not clear the bucket's bitmap bit (ops on the zero arm: %s)" % sorted(ops_z), where=where(store, sp[0]["true"]))
         ctx.check("BitOr" in ops_n and "BitAnd" not in ops_n, "bitmap-maintained", "set-on-nonzero",
                   "storing a non-empty head does not set the bucket's bitmap bit (ops on the non-zero arm: %s)" % sorted(ops_n), where=where(store, sp[0]["false"]))
+    # exact mask expressions:  zero arm  byte & !(1 << (idx % 8)) ;  non-zero arm  byte | (1 << (idx % 8)) ;  byte index idx / 8
+    from . import k7
+    cn = k7.Canon(prog, store)
+
+    def is_bit(c):
+        return c[0] == "bin" and c[1] == "Shl" and c[2] == ("c", 1) and c[3][0] == "bin" and c[3][1] == "Rem" and c[3][3] == ("c", 8) and c[3][2][0] == "p" and c[3][2][1] == 3
+    masks = {"BitAnd": [], "BitOr": []}
+    for b, blk in enumerate(store.blocks):
+        if blk["cleanup"]:
+            continue
+        for st in blk["stmts"]:
+            if st["s"] == "assign" and st["rhs"]["rv"] == "bin" and st["rhs"]["op"] in masks:
+                masks[st["rhs"]["op"]].append((b, cn.op(st["rhs"]["b"], b)))
+    and_ok = len(masks["BitAnd"]) == 1 and masks["BitAnd"][0][1][0] == "un" and masks["BitAnd"][0][1][1] == "Not" and is_bit(masks["BitAnd"][0][1][2])
+    or_ok = len(masks["BitOr"]) == 1 and is_bit(masks["BitOr"][0][1])
+    ctx.check(and_ok, "bitmap-maintained", "clear-mask", "clearing a bucket's bitmap bit does not use the mask !(1 << (idx %% 8)) (found %s): other buckets' bits are cleared too and iteration skips them"
+              % [k7.expr_str(m) for b, m in masks["BitAnd"]], where=where(store))
+    ctx.check(or_ok, "bitmap-maintained", "set-mask", "setting a bucket's bitmap bit does not use the mask 1 << (idx %% 8) (found %s)" % [k7.expr_str(m) for b, m in masks["BitOr"]], where=where(store))
+    sk = calls_to(prog, store, target_fn=R.need("SEEK_START"))
+    byte_seeks = [cn.op(t["args"][1], b) for b, t in sk if store.dominates(b, wb)]
+    ok = any(_has(e, lambda c: c[0] == "bin" and c[1] == "Div" and c[3] == ("c", 8) and c[2][0] == "p" and c[2][1] == 3) for e in byte_seeks)
+    ctx.check(ok, "bitmap-maintained", "byte-index", "the bitmap byte of bucket idx is not addressed at bitmap_base + idx / 8", where=where(store))
     # the byte written originates from the byte read
     o = origins(prog, store, w8[0][1]["args"][1], at=w8[0][0])
     ctx.check(bool(o) and any(x.kind == "bin" for x in o) and any(x.kind == "call" and x.data.get("callee") == "rabuf::SmallRead::read_u8" for x in o),
@@ -80,3 +102,15 @@ def _binops(fn, region):
             if s["s"] == "assign" and s["rhs"]["rv"] == "bin":
                 out.add(s["rhs"]["op"])
     return out
+
+
+def _has(c, pred):
+    if pred(c):
+        return True
+    if c[0] == "bin":
+        return _has(c[2], pred) or _has(c[3], pred)
+    if c[0] in ("un", "len"):
+        return _has(c[-1], pred)
+    if c[0] == "call":
+        return any(_has(a, pred) for a in c[2])
+    return False
